@@ -6,3 +6,4 @@ import Gomjml.Props.C03
 #print axioms Gomjml.Props.C03.C03_components
 #print axioms Gomjml.Props.C03.C03_social_loop
 #print axioms Gomjml.Props.C03.C03_navbar_loop
+#print axioms Gomjml.Props.C03.C03_navbar_first
